@@ -146,6 +146,7 @@ pub fn walker_probes(w: &Walker, out: &mut Outcome) {
     out.probe(format!("link:{:?}", w.link));
     out.probe(format!("layers:{}", w.layers.len()));
     out.probe(if w.taps { "taps:on" } else { "taps:off" });
+    out.probe(if w.erased { "stack:type-erased" } else { "stack:statically-composed" });
     match &w.source {
         Source::Path => out.probe("source:path"),
         Source::Glob { .. } => out.probe("source:glob"),
@@ -194,6 +195,7 @@ pub fn underlying_source(
                 victims: vec![],
                 layers: vec![],
                 taps: false,
+                erased: false,
             };
             if !cycle_above_prefix(model, &probe) {
                 return Source::Glob { expr: e, rooted: r };
